@@ -909,3 +909,85 @@ def z5(prog):
         findings.append({"key": key, "where": "libzwerg/" + f["l"],
                          "msg": bad + " (`%d` is `%( value %)`: the text would not be a decimal literal that reads back as an equal constant of the decimal domain)", "detail": None})
     return inst, findings
+
+
+def z6(prog):
+    """The alias predicates on constants (`C ?TAG_x`, `C ?AT_x`, `C ?FORM_x`, `C ?OP_x` and their `!` / long forms) hold exactly when
+    `C == DW_TAG_x` (etc.) holds: each pred_*_cst is constructed by its own constructor and its result() interpreted from source on a
+    constant of the alias' own domain with the same and with another number, on a constant of another named domain with the same
+    number (DW_AT_bit_size and DW_TAG_member are both 13), and on a plain number; the answer must be `yes` only in the first case and
+    must agree with constant::operator== (interpreted as well) in every case."""
+    from cxxobj import CxxEvaluator, Obj, OutOfBounds
+    from absint import Thrown
+    inst, findings = [], []
+    sign = {c["n"]: ("enum", c["n"], c["v"]) for e in prog.enums.values() if e["q"] == "signedness" for c in e["consts"]}
+    brev = {c["n"]: ("enum", c["n"], c["v"]) for e in prog.enums.values() if e["q"] == "brevity" for c in e["consts"]}
+    if set(sign) < {"sign", "unsign"}:
+        raise Broken("enum signedness vanished")
+
+    class D:
+        def __init__(self, name, arith, plain, serial):
+            self.name, self.arith, self.plain = name, arith, plain
+            self.addr = 0x9000 + serial * 0x40
+
+        def __repr__(self):
+            return self.name
+    DEC = D("dec_constant_dom", True, True, 0)
+    named = {"dw_tag_dom": D("DW_TAG_", False, False, 1), "dw_attr_dom": D("DW_AT_", False, False, 2), "dw_form_dom": D("DW_FORM_", False, False, 3),
+             "dw_locexpr_opcode_dom": D("DW_OP_", False, False, 4)}
+    hooks = {
+        "zw_cdom::plain": lambda ev, o, a: o.plain, "constant_dom::plain": lambda ev, o, a: o.plain,
+        "zw_cdom::safe_arith": lambda ev, o, a: o.arith, "constant_dom::safe_arith": lambda ev, o, a: o.arith,
+        "ctor:pred_result": lambda ev, o, a: ("yes" if a[0] else "no") if isinstance(a[0], bool) else a[0],
+        "zw_cdom::most_enclosing": lambda ev, o, a: o, "constant_dom::most_enclosing": lambda ev, o, a: o,
+        "ctor:std::less<*": lambda ev, o, a: (lambda ev2, args: (0 if args[0] is None else args[0].addr) < (0 if args[1] is None else args[1].addr)),
+    }
+    for n_, d in named.items():
+        hooks[n_] = (lambda d: lambda ev, o, a: d)(d)
+    ev = CxxEvaluator(hooks, {"dec_constant_dom": DEC}, prog=prog)
+    eqf = [f for f in prog.funcs.values() if f["q"] == "constant::operator==" and f.get("body") is not None]
+    if len(eqf) != 1:
+        raise Broken("anchor constant::operator== vanished")
+
+    def mkc(v, d):
+        c = Obj("constant")
+        m = Obj("mpz_class")
+        m.m_u, m.m_i, m.m_sign = v, v, sign["unsign"]
+        c.m_value, c.m_dom, c.m_brv = m, d, brev.get("full")
+        return c
+    rows = (("pred_tag_cst", "dw_tag_dom", "?TAG_"), ("pred_atname_cst", "dw_attr_dom", "?AT_"), ("pred_form_cst", "dw_form_dom", "?FORM_"), ("pred_op_cst", "dw_locexpr_opcode_dom", "?OP_"))
+    for cls, domfn, word in rows:
+        res = [f for f in prog.funcs.values() if f["q"] == cls + "::result" and f.get("body") is not None and len(f["params"]) == 1 and "value_cst" in f["params"][0]["t"]]
+        if len(res) != 1:
+            raise Broken("anchor %s::result (value_cst &) vanished" % cls)
+        key = "Z6:" + cls
+        bad = None
+        n = 0
+        try:
+            own = named[domfn]
+            other = [d for k_, d in named.items() if k_ != domfn][0]
+            for code in (1, 13):
+                pred = ev.new_object(cls, [code])
+                if getattr(getattr(pred, "m_const", None), "m_dom", None) is not own:
+                    raise Broken("%s does not keep a constant of %s" % (cls, own))
+                for what, operand, want in (("the same constant", mkc(code, own), "yes"), ("another constant of the same family", mkc(code + 1, own), "no"),
+                                            ("a constant of another family with the same number", mkc(code, other), "no"), ("the plain number", mkc(code, DEC), None)):
+                    a = Obj("value_cst")
+                    a.m_cst, a.m_pos = operand, 0
+                    ev.steps = 0
+                    r = ev.call(res[0], pred, [a])
+                    got = r[1] if isinstance(r, tuple) else r
+                    if isinstance(got, bool):
+                        got = "yes" if got else "no"
+                    eq = ev.call(eqf[0], pred.m_const, [operand])
+                    n += 1
+                    if want is not None and got != want and bad is None:
+                        bad = "`C %sx` with C = %s (%s %d) answers `%s`; expected `%s`" % (word, what, operand.m_dom, code if "another constant of the same" not in what else code + 1, got, want)
+                    elif (got == "yes") != bool(eq) and bad is None:
+                        bad = "`C %sx` with C = %s answers `%s` but `C == DW_..x` is %s: the alias no longer denotes the comparison with its named constant" % (word, what, got, bool(eq))
+        except (OutOfBounds, Thrown) as x:
+            raise Broken("%s cannot be evaluated: %s" % (cls, x))
+        inst.append((key, {"evaluations": n}))
+        if bad:
+            findings.append({"key": key, "where": "libzwerg/" + res[0]["l"], "msg": bad, "detail": None})
+    return inst, findings
